@@ -36,6 +36,22 @@ class ReturnedDataPlaceHolder:
     pass
 
 
+def _lambda_for_query(
+    f: Union[str, ast.Lambda, Callable], caller_name: str, known_types: Dict[str, Any]
+) -> ast.Lambda:
+    """Turn what the user handed to `Select`, `SelectMany` or `Where` into the lambda we will
+    work on.
+
+    The type follower patches nested lambdas in place when it works its way through them (it
+    is the one that hands us `known_types`). What a user hands us is never altered - and two
+    queries built from the same `ast.Lambda` object share nothing - so we work on a copy.
+    """
+    a = parse_as_ast(f, caller_name)
+    if len(known_types) == 0:
+        a = copy.deepcopy(a)
+    return _local_simplification(a)
+
+
 def _local_simplification(a: ast.Lambda) -> ast.Lambda:
     """Simplify the AST by removing unnecessary statements and
     syntatic sugar
@@ -119,7 +135,7 @@ class ObjectStream(Generic[T]):
         from func_adl.type_based_replacement import remap_from_lambda
 
         n_stream, n_ast, rtn_type = remap_from_lambda(
-            self, _local_simplification(parse_as_ast(func, "SelectMany")), known_types
+            self, _lambda_for_query(func, "SelectMany", known_types), known_types
         )
         check_ast(n_ast)
 
@@ -151,7 +167,7 @@ class ObjectStream(Generic[T]):
         from func_adl.type_based_replacement import remap_from_lambda
 
         n_stream, n_ast, rtn_type = remap_from_lambda(
-            self, _local_simplification(parse_as_ast(f, "Select")), known_types
+            self, _lambda_for_query(f, "Select", known_types), known_types
         )
         check_ast(n_ast)
         return self.clone_with_new_ast(
@@ -181,7 +197,7 @@ class ObjectStream(Generic[T]):
         from func_adl.type_based_replacement import remap_from_lambda
 
         n_stream, n_ast, rtn_type = remap_from_lambda(
-            self, _local_simplification(parse_as_ast(filter, "Where")), known_types
+            self, _lambda_for_query(filter, "Where", known_types), known_types
         )
         check_ast(n_ast)
         if rtn_type != bool:
